@@ -52,6 +52,7 @@ class World:
         # model of the observer sets: tag -> list of (oid, callable, kind)
         self.model = {t: [] for t in self.st.accessors}
         self.removed = {}  # oid -> tag, observers that must never be called again
+        self.removed_obs = {}  # oid -> (callable or None, kind) of removed observers, for re-registration
         self.clients = {}
 
     # ---- observers
@@ -103,12 +104,27 @@ class World:
         oid, obs, kind = self.model[tag].pop(i)
         self.st.accessors[tag].unwatch(self.callable_of(oid, obs))
         self.removed[oid] = tag
+        self.removed_obs[oid] = (obs, kind)
         self.sh.count("unwatch_calls")
         self.sh.see("unwatched_kinds", kind)
+
+    def rewatch_removed(self, tag):
+        """An observer that was removed earlier (unwatch / unwatch_all) is registered again on the
+        same item - a client tearing down and rebuilding with the same callbacks."""
+        cands = [(oid, x) for oid, x in self.removed_obs.items() if self.removed.get(oid) == tag]
+        if not cands:
+            return
+        oid, (obs, kind) = self.r.choice(cands)
+        self.st.accessors[tag].watch(self.callable_of(oid, obs))
+        del self.removed[oid]
+        del self.removed_obs[oid]
+        self.model[tag].append((oid, obs, kind))
+        self.sh.count("rewatch_of_removed_observer")
 
     def unwatch_all(self, tag):
         for oid, obs, kind in self.model[tag]:
             self.removed[oid] = tag
+            self.removed_obs[oid] = (obs, kind)
         self.model[tag] = []
         self.st.accessors[tag].unwatch_all()
         self.sh.count("unwatch_all_calls")
@@ -450,6 +466,10 @@ def history(sh, cls_name, combo, seed, nops):
             w.unwatch(t)
         elif x < 0.90:
             w.unwatch_all(t)
+            if r.random() < 0.5:
+                w.rewatch_removed(t)
+        elif x < 0.93:
+            w.rewatch_removed(r.choice(list(w.removed.values())) if w.removed else t)
         else:
             w.watch(t, r.choice(kinds))
     sh.nontrivial(f"{cls_name}:{plat}-cfg-{c}/log-{l}")
@@ -495,6 +515,7 @@ def main(tier, seed):
     run.need(run.counters.get("nested_updates", 0) > 100, "too few re-entrant updates")
     run.need(run.counters.get("reentrant_observer_ops", 0) > 100 and len(run.sets.get("reentrant_ops", set())) >= 5, "too few observer-set operations made from inside a notification")
     run.need(run.counters.get("silent_foreign_bit_changes_checked", 0) > 50, "too few silent foreign-bit changes observed")
+    run.need(run.counters.get("rewatch_of_removed_observer", 0) > 20, "removed observers were hardly ever registered again")
     run.need(run.counters.get("unwatch_calls", 0) > 20 and run.counters.get("double_registrations", 0) > 20, "observer-set operations not exercised")
     run.need({"function", "lambda", "method"} <= run.sets.get("unwatched_kinds", set()), "not every observer kind was unwatched")
     return run.finish(
